@@ -51,15 +51,20 @@ func (s *scheduler) point(site int) {
 	if s.total > s.horizon {
 		panic(fmt.Sprintf("c20: step horizon %d exceeded (livelock / non-termination)", s.horizon))
 	}
-	en := s.enabled()
-	if len(en) <= 1 {
+	alive := 0
+	for _, t := range s.threads {
+		if !t.done {
+			alive++
+		}
+	}
+	if alive <= 1 {
 		return
 	}
-	ch := s.x.Choose("sched", len(en))
-	next := en[ch]
-	if next == me {
-		return
+	ch := s.x.Choose("", alive)
+	if ch == 0 {
+		return // keep running (canonical order puts the running thread first)
 	}
+	next := s.enabled()[ch]
 	s.cur = next
 	s.threads[next].resume <- struct{}{}
 	<-s.threads[me].resume
